@@ -8,7 +8,7 @@
     far, so every monitor judges "recorded as ..." against the acknowledged
     store history, exactly as the properties are phrased. *)
 From Coq Require Import List ZArith Bool Arith.
-From FF Require Import Sx StoreModel StoreCheck PreCheck.
+From FF Require Import Sx StoreModel StoreCheck PreCheck TaskRun.
 Import ListNotations.
 Local Open Scope Z_scope.
 
@@ -108,7 +108,8 @@ Definition ins_edge (origin a b : Z) : bool :=
   | _ => false (* success: final *)
   end.
 
-Definition check_task_edges (m : mst) (before after : store) : mst :=
+Definition check_task_edges (m : mst) (origin : Z) (before after : store) : mst :=
+  if Z.eqb origin 9 then m else
   fold_left (fun acc r =>
     match find_task before (t_id r) with
     | Some r0 => if task_edge (t_status r0) (t_status r) then acc
@@ -117,6 +118,7 @@ Definition check_task_edges (m : mst) (before after : store) : mst :=
     end) (tasks after) m.
 
 Definition check_ins_edges (m : mst) (origin : Z) (before after : store) : mst :=
+  if Z.eqb origin 9 then m (* scenario set-up writes (dispatch by the harness, foreign populations) *) else
   fold_left (fun acc r =>
     match find_ins before (i_id r) with
     | Some r0 => if ins_edge origin (i_status r0) (i_status r) then acc
@@ -225,7 +227,7 @@ Definition is_noop_cmd_write (m : mst) (origin : Z) (o : sop) (s : store) : bool
   end.
 
 Definition on_write (m : mst) (origin : Z) (o : sop) (acked : bool) (s s' : store) : mst :=
-  let m := check_task_edges m s s' in
+  let m := check_task_edges m origin s s' in
   let noop := is_noop_cmd_write m origin o s in
   let m := let m1 := check_ins_edges m origin s s' in
            if noop then
@@ -353,7 +355,50 @@ Definition note_reads (m : mst) (reply : sx) : mst :=
   | _ => m
   end.
 
-Definition mstep (m : mst) (ev : sx) : mst :=
+(** per-task program counter of the executor run (TaskRun), kept in flag kind 19 *)
+Definition pc_code (p : pc) : Z :=
+  match p with
+  | Idle => 0 | InBefore => 1 | NeedRunning => 2 | NeedRunStart => 3 | InRun => 4 | NeedEnding => 5
+  | NeedAfterOrSuccess => 6 | InAfter => 7 | NeedSuccess => 8 | InRetry => 9 | NeedInit => 10 | NeedFail => 11
+  end.
+Definition pc_of_code (z : Z) : pc :=
+  match z with
+  | 1 => InBefore | 2 => NeedRunning | 3 => NeedRunStart | 4 => InRun | 5 => NeedEnding
+  | 6 => NeedAfterOrSuccess | 7 => InAfter | 8 => NeedSuccess | 9 => InRetry | 10 => NeedInit | 11 => NeedFail
+  | _ => Idle
+  end.
+
+Definition ev_tid (ev : sx) : option Z :=
+  match ev with
+  | L [I 1; _; op; _; _; _] =>
+      match sop_of_sx op with
+      | Some (OPatchTask id _ _ _) => Some id
+      | Some (OUpdateTask r) => Some (t_id r)
+      | _ => None
+      end
+  | L [I 2; I t; _; _; _; _; _] => Some t
+  | L [I 3; I t; _; _; _] => Some t
+  | _ => None
+  end.
+
+(** advance the run program counter of the task the event belongs to; a run that BEGINS for a task
+    whose in-flight run was cancelled (and that was not retried since) violates C12 *)
+Definition track_pc (m : mst) (ev : sx) : mst :=
+  match ev_tid ev with
+  | None => m
+  | Some tid =>
+      fold_left (fun acc te =>
+        let p := pc_of_code (fget acc 19 tid) in
+        match acc_step p te with
+        | Some p' =>
+            let acc := if pc_eqb p Idle && negb (pc_eqb p' Idle) && zin tid (m_cancelreq acc)
+                       then add_viol acc 12 2 tid else acc in
+            fset acc 19 tid (pc_code p')
+        | None => fset acc 19 tid 0
+        end) (project_event tid ev) m
+  end.
+
+Definition mstep0 (m : mst) (ev : sx) : mst :=
   let m := set_idx m (m_idx m + 1) in
   match ev with
   | L [I 1; I now; op; reply; I origin; I fault] =>
@@ -373,6 +418,16 @@ Definition mstep (m : mst) (ev : sx) : mst :=
                        if zin origin [0; 1; 2; 7] then
                          match find_ins (m_store m) id with
                          | Some i => if own_ins m i then m else add_viol m 6 2 id
+                         | None => m
+                         end
+                       else m
+                   | OUpdateTask r0 =>
+                       if zin origin [0; 1; 2; 7] then
+                         match find_task (m_store m) (t_id r0) with
+                         | Some r => match find_ins (m_store m) (t_ins r) with
+                                     | Some i => if own_ins m i then m else add_viol m 6 4 (t_id r0)
+                                     | None => m
+                                     end
                          | None => m
                          end
                        else m
@@ -445,10 +500,19 @@ Definition mstep (m : mst) (ev : sx) : mst :=
                                | None => add_viol acc 1 2 tid
                                end) (t_deps r) m in
                    (* C12: nothing downstream of a cancelled in-flight task starts *)
-                   let m := if negb (Z.eqb (fget m 15 tid) 1)
-                               && existsb (fun a => zin (t_id a) (m_cancelreq m))
-                                          (ancestor_tasks (fun x => Z.eqb (fget m 15 x) 1) s r)
-                            then add_viol m 12 1 tid else m in
+                   let m := if negb (Z.eqb (fget m 15 tid) 1) then
+                              let anc := ancestor_tasks (fun x => Z.eqb (fget m 15 x) 1) s r in
+                              match filter (fun a => zin (t_id a) (m_cancelreq m)) anc with
+                              | [] => m
+                              | hit =>
+                                  (* clause 11: the cancelled task was kept as success and the path down to the started
+                                     task goes through a multi-parent task (children that were not executable when the
+                                     cancelled task completed are not cancelled); clause 1: everything else *)
+                                  if forallb (fun a => Z.eqb (t_status a) sSuccess) hit
+                                     && existsb (fun x => (1 <? length (t_deps x))%nat) (r :: anc)
+                                  then add_viol m 12 11 tid else add_viol m 12 1 tid
+                              end
+                            else m in
                    (* C02a: the main action starts only after 'running' was acknowledged by the store *)
                    let m := if Z.eqb ph 1 then
                               (if Z.eqb (t_status r) sRunning && Z.eqb (fget m 4 tid) (sRunning * 2 + 1) then m
@@ -461,6 +525,8 @@ Definition mstep (m : mst) (ev : sx) : mst :=
                  let n := fget m 1 tid + 1 in
                  let m := fset m 1 tid n in
                  let m := if 1 <? n then add_viol m 2 2 tid else m in
+                 (* C04: a main action that had started before a crash is not started again *)
+                 let m := if (1 <? n) && m_crashed m then add_viol m 4 4 tid else m in
                  if existsb (fun p => Z.eqb (fst p) tid && Z.eqb (snd p) 1) (m_alive m) then add_viol m 2 4 tid else m
                else m in
       (* C13: no phase runs while a skip check (or, unless continued, a block check) holds *)
@@ -531,6 +597,13 @@ Definition mstep (m : mst) (ev : sx) : mst :=
   | L [I 27; I ins; vars] => set_aux m (aset (m_aux m) (fkey 2 ins) vars)
   | L [I 28] => add_viol m 20 9 0
   | _ => m
+  end.
+
+Definition mstep (m : mst) (ev : sx) : mst :=
+  let m1 := mstep0 m ev in
+  match ev with
+  | L [I 20] => fclear_kind m1 19
+  | _ => track_pc m1 ev
   end.
 
 Definition run_journal (evs : list sx) : mst := fold_left mstep evs m0.
